@@ -100,6 +100,14 @@ def main():
         pid = p["id"]
         if pid in CHECKS and os.path.exists(os.path.join(VERIF, "bpverif", "props", pid.lower() + ".py")):
             cat, tech, text, note = CHECKS[pid]
+            # what was added to the generators later is kept in the module's RULE text ("Also: ..."): carry it over
+            import re
+            src = open(os.path.join(VERIF, "bpverif", "props", pid.lower() + ".py")).read()
+            parts = re.findall(r'"((?:[^"\\\\]|\\\\.)*)"', src[src.index("RULE = ("):src.index("\nASSUMPTIONS")])
+            whole = "".join(parts)
+            also = [whole[whole.index("Also:"):]] if "Also:" in whole else []
+            if also:
+                text = text + " " + also[0].strip()
             checks.append(dict(
                 property_id=pid,
                 quick_cmd="/venv/bin/python -m bpverif %s --tier quick" % pid,
